@@ -207,7 +207,18 @@ def bImg : Bytes := [91, 105, 109, 103, 93]                 -- "[img]"
 def bImgDash : Bytes := [91, 105, 109, 103, 45]             -- "[img-"
 def bMM : Bytes := [60, 124, 105, 109, 97, 103, 101, 124, 62] -- "<|image|>"
 
-def natBytes (n : Nat) : Bytes := (toString n).toUTF8.toList
+/-- ASCII digit -/
+def digitByte (k : Nat) : UInt8 := (48 + k).toUInt8
+
+/-- decimal digits, most significant first (`fuel` ≥ number of digits) -/
+def decDigits : Nat → Nat → Bytes
+  | 0, _ => []
+  | fuel+1, n => if n < 10 then [digitByte n] else decDigits fuel (n / 10) ++ [digitByte (n % 10)]
+
+/-- `%d` of a non-negative int.  Own definition (not `toString`) so that the runner's reading of the number
+    (`digitsVal`) can be proved to invert it; that it prints what Go prints is part of the exact L1
+    comparison of every rewritten content and prompt. -/
+def natBytes (n : Nat) : Bytes := decDigits (n+1) n
 
 def renderPiece : Piece → Bytes
   | .lit b => b
